@@ -161,6 +161,10 @@ func (c01) Run(c *Ctx, i int) CaseResult {
 		res.Fails = append(res.Fails, Failure{Channel: "L0.oracle-crosscheck", Classifier: "oracle-disagreement", What: "Lean mono and the harness interpreter disagree", Input: in, Expected: fc.Want, Observed: fc.WantGo})
 		return res
 	}
+	// L1: the plans against the planner model the transparency argument is about
+	if !fc.Out.PlanErr && !fc.Out.PlanHung {
+		res.Fails = append(res.Fails, PlanCorrFails(c, fc, in)...)
+	}
 	if ok, what := fc.Status(); !ok {
 		fin, ffc := in, fc
 		if i >= len(FedCorpus) {
